@@ -169,6 +169,26 @@ func theFixtures() *fixtures {
 	f.valid["encap"] = f.iss3.NameKey().Marshal()
 	f.valid["inner"] = ref.EncodeInnerRequest(1, make([]byte, 256), make([]byte, 32))
 	f.valid["spki"], _ = util.MarshalTokenKeyPSSOID(&gen.RSAPool()[0].PublicKey)
+	// the same key in another legal encoding: the BIT STRING announces 2 unused bits and carries the RSAPublicKey bytes
+	// shifted left by 2 (a decoder right-aligns it - in its own memory)
+	if spki := f.valid["spki"]; len(spki) > 300 {
+		for i := 4; i+5 < len(spki); i++ {
+			if spki[i] == 0x03 && spki[i+1] == 0x82 && spki[i+4] == 0x00 && spki[i+5] == 0x30 && int(spki[i+2])<<8|int(spki[i+3]) == len(spki)-i-4 {
+				sh := append([]byte{}, spki...)
+				sh[i+4] = 2
+				body := sh[i+5:]
+				for j := 0; j < len(body); j++ {
+					v := body[j] << 2
+					if j+1 < len(body) {
+						v |= body[j+1] >> 6
+					}
+					body[j] = v
+				}
+				f.valid["spki-shifted"] = sh
+				break
+			}
+		}
+	}
 	br, _ := batched.NewBasicClient().CreateTokenRequest([]tokens.TokenRequestWithDetails{f.st1.Request(), f.st2.Request()})
 	f.valid["batchreq"] = append([]byte{}, br.Marshal()...)
 	f.valid["batchresp"], _ = batched.NewBasicBatchedIssuer(gen.Batch1{I: f.iss1}, gen.Batch2{I: f.iss2}).EvaluateBatch(br)
@@ -402,6 +422,13 @@ func ops() []op {
 				return nil
 			}
 			return bytes.Join(l, []byte{0xfe})
+		}),
+		decoderOp("TokenKey/bit-string-with-unused-bits", "spki-shifted", func(b []byte) []byte {
+			k, err := util.UnmarshalTokenKey(b)
+			if err != nil {
+				return nil
+			}
+			return k.N.Bytes()
 		}),
 		decoderOp("TokenKey", "spki", func(b []byte) []byte {
 			k, err := util.UnmarshalTokenKey(b)
@@ -987,5 +1014,76 @@ func TestConstructorArguments(t *testing.T) {
 			s.Class("observed:batch-issuer-follows-later-changes-of-the-callers-slice")
 		}
 		s.Sample(func() any { return map[string]any{"issuers": len(list)} })
+	})
+}
+
+// TestBatchObjectReuse: a batch request object built by the client from the CALLER's request objects is reused to decode
+// another batch (same positions, same types): the caller's requests - values handed out earlier - must keep their
+// contents, whether the decode succeeds or stops half-way.
+func TestBatchObjectReuse(t *testing.T) {
+	s := rt.S("batch-object-reuse").SetRule("two requests (type 1, type 2) of the caller are put into a batch with BatchedClient.CreateTokenRequest; their fields and encodings are held; the SAME batch object then decodes another batch of the same shape (well-formed, or truncated half-way); held values must be unchanged and the caller's request states must still finalize the issuer's answers to their own requests. non-trivial = every case; distinct by request bytes")
+	rt.Check(t, 30, 6000, func(t *rapid.T) {
+		defer rt.Entropy(gen.Seed().Draw(t, "entropy"))()
+		k1 := gen.OPRFKey(oprf.SuiteP384, gen.Seed().Draw(t, "keyseed"))
+		rsaIdx := gen.RSAKey().Draw(t, "rsakey")
+		mk := func() (*gen.Session, *gen.Session) {
+			a, err1 := gen.NewSession(t, 1, gen.SessionOpts{OKey: k1})
+			b, err2 := gen.NewSession(t, 2, gen.SessionOpts{RKeyIdx: rsaIdx})
+			if err1 != nil || err2 != nil {
+				t.Fatalf("harness: %v %v", err1, err2)
+			}
+			return a, b
+		}
+		a1, a2 := mk()
+		b1, b2 := mk()
+		order := rapid.Bool().Draw(t, "type2First")
+		list := func(x, y *gen.Session) []tokens.TokenRequestWithDetails {
+			if order {
+				return []tokens.TokenRequestWithDetails{y.State2.Request(), x.State1.Request()}
+			}
+			return []tokens.TokenRequestWithDetails{x.State1.Request(), y.State2.Request()}
+		}
+		batchA, err := batched.NewBasicClient().CreateTokenRequest(list(a1, a2))
+		if err != nil {
+			t.Fatalf("harness: %v", err)
+		}
+		batchB, err := batched.NewBasicClient().CreateTokenRequest(list(b1, b2))
+		if err != nil {
+			t.Fatalf("harness: %v", err)
+		}
+		h := &holder{}
+		h.hold("type-1 request BlindedReq", a1.State1.Request().BlindedReq)
+		h.hold("type-1 request Marshal()", a1.State1.Request().Marshal())
+		h.hold("type-2 request BlindedReq", a2.State2.Request().BlindedReq)
+		h.hold("type-2 request Marshal()", a2.State2.Request().Marshal())
+		h.hold("batch Marshal()", batchA.Marshal())
+		other := append([]byte{}, batchB.Marshal()...)
+		if rapid.Bool().Draw(t, "truncatedHalfWay") {
+			other = other[:len(other)-gen.UniformRange(t, 1, 200, "cut")]
+		}
+		s.Eval()
+		s.Nontrivial(a1.RequestBytes, a2.RequestBytes, other)
+		rt.GuardLite(func() { _ = batchA.Unmarshal(other) })
+		if err := h.check(); err != nil {
+			rt.Fail(t, "C16/batch-object-reuse", "after the batch object decoded another batch: %v", err)
+			return
+		}
+		// the request OBJECTS are the caller's too: re-read, they still say what they said
+		if !bytes.Equal(a1.State1.Request().Marshal(), a1.RequestBytes) || !bytes.Equal(a2.State2.Request().Marshal(), a2.RequestBytes) ||
+			!bytes.Equal(a1.State1.Request().BlindedReq, a1.RequestBytes[3:]) || !bytes.Equal(a2.State2.Request().BlindedReq, a2.RequestBytes[3:]) {
+			rt.Fail(t, "C16/batch-object-reuse", "after the batch object decoded another batch, the caller's request objects (handed to the batch client earlier) hold another request")
+			return
+		}
+		for _, x := range []*gen.Session{a1, a2} {
+			resp, err := x.IssueWire(x.RequestBytes)
+			if err != nil {
+				t.Fatalf("harness: %v", err)
+			}
+			if toks, err := x.Finalize(resp); err != nil || x.CheckTokens(toks) != nil {
+				rt.Fail(t, "C16/batch-object-reuse", "after the batch object decoded another batch, a caller's request state no longer finalizes the answer to its own request: %v", err)
+				return
+			}
+		}
+		s.Sample(func() any { return map[string]any{"other_batch_bytes": len(other)} })
 	})
 }
